@@ -75,16 +75,26 @@ fn build_outs(l: &str) -> Result<Vec<TxOut>, ()> {
     Ok(v)
 }
 
+/// inputs: `<satoshis|->=<unlocking>=<locking|->` optionally followed by `=<prev txid bytes>=<vout>=<sequence>`
+/// (default: txid = 32 bytes k+1, vout = k, sequence = 0xffffffff).  Returns Err also when the public view of the
+/// finalised script (TxIn::get_finalised_script) differs from unlocking bytes ++ locking bytes.
 fn build_ins(l: &str) -> Result<Vec<TxIn>, ()> {
     let mut v = vec![];
     if !l.is_empty() {
         for (k, item) in l.split('/').enumerate() {
             let f: Vec<&str> = item.split('=').collect();
-            if f.len() != 3 {
+            if f.len() != 3 && f.len() != 6 {
                 return Err(());
             }
             let unlock = opt_script(f[1])?.ok_or(())?;
-            let mut txin = TxIn::new(&[(k as u8).wrapping_add(1); 32], k as u32, &unlock, None);
+            let mut txin = if f.len() == 6 {
+                let txid = expand(f[3]).ok_or(())?;
+                let vout: u32 = f[4].parse().map_err(|_| ())?;
+                let seq: u32 = f[5].parse().map_err(|_| ())?;
+                TxIn::new(&txid, vout, &unlock, Some(seq))
+            } else {
+                TxIn::new(&[(k as u8).wrapping_add(1); 32], k as u32, &unlock, None)
+            };
             if f[0] != "-" {
                 txin.set_satoshis(f[0].parse::<u64>().map_err(|_| ())?);
             }
@@ -95,6 +105,10 @@ fn build_ins(l: &str) -> Result<Vec<TxIn>, ()> {
         }
     }
     Ok(v)
+}
+
+fn null_outpoint(t: &TxIn) -> bool {
+    t.get_prev_tx_id(None).iter().all(|b| *b == 0) && t.get_prev_tx_id(None).len() == 32 && t.get_vout() == 0xffff_ffff
 }
 
 fn obs(all: &[usize], first: Option<usize>) -> String {
@@ -173,6 +187,9 @@ fn history(inputs: bool, items: &str, steps: &str) -> String {
                 "c" => c = c.clone(),
                 "k" => tx = tx.clone(),
                 "b" => {
+                    if (0..tx.get_ninputs()).any(|i| tx.get_input(i).map(|t| null_outpoint(&t)).unwrap_or(false)) {
+                        return "BADARG".into();
+                    }
                     tx = match tx.to_bytes().and_then(|b| Transaction::from_bytes(&b)) {
                         Ok(t) => t,
                         Err(_) => return "ERR".into(),
@@ -428,46 +445,26 @@ pub fn run(op: &str, args: &[String]) -> Option<String> {
         }
         "tx.match_inputs" => {
             let mut tx = Transaction::new(1, 0);
-            let mut bulk: Vec<TxIn> = vec![];
             let l = match args.get(0) {
                 Some(l) => l.clone(),
                 None => return Some("BADARG".into()),
             };
-            if !l.is_empty() {
-                for (k, item) in l.split('/').enumerate() {
-                    let f: Vec<&str> = item.split('=').collect();
-                    if f.len() != 3 {
-                        return Some("BADARG".into());
+            let bulk: Vec<TxIn> = match build_ins(&l) {
+                Ok(v) => v,
+                Err(_) => return Some("BADARG".into()),
+            };
+            for txin in &bulk {
+                // public view of the script the criteria are matched against
+                let want: Vec<u8> = match txin.get_locking_script() {
+                    Some(l) => [txin.get_unlocking_script().to_bytes(), l.to_bytes()].concat(),
+                    None => txin.get_unlocking_script().to_bytes(),
+                };
+                if let Ok(f) = txin.get_finalised_script() {
+                    if f.to_bytes() != want {
+                        return Some("OK:inconsistent".into());
                     }
-                    let unlock = match opt_script(f[1]) {
-                        Ok(Some(s)) => s,
-                        _ => return Some("BADARG".into()),
-                    };
-                    let mut txin = TxIn::new(&[k as u8; 32], k as u32, &unlock, None);
-                    if f[0] != "-" {
-                        match f[0].parse::<u64>() {
-                            Ok(v) => txin.set_satoshis(v),
-                            Err(_) => return Some("BADARG".into()),
-                        }
-                    }
-                    match opt_script(f[2]) {
-                        Ok(Some(s)) => txin.set_locking_script(&s),
-                        Ok(None) => (),
-                        Err(_) => return Some("BADARG".into()),
-                    }
-                    // public view of the script the criteria are matched against
-                    let want: Vec<u8> = match txin.get_locking_script() {
-                        Some(l) => [txin.get_unlocking_script().to_bytes(), l.to_bytes()].concat(),
-                        None => txin.get_unlocking_script().to_bytes(),
-                    };
-                    if let Ok(f) = txin.get_finalised_script() {
-                        if f.to_bytes() != want {
-                            return Some("OK:inconsistent".into());
-                        }
-                    }
-                    tx.add_input(&txin);
-                    bulk.push(txin);
                 }
+                tx.add_input(txin);
             }
             match criteria(args) {
                 Err(_) => return Some("BADARG".into()),
